@@ -92,7 +92,7 @@ func TestC16(t *testing.T) {
 	fail := func(matcher, desc string, w map[string]interface{}) {
 		rec.Violation(caseNo, matcher, desc, w)
 	}
-	reps := vk.N(1, 12)
+	reps := vk.N(3, 24)
 
 	// ---------- PUBLISH in all three directions
 	for rep := 0; rep < reps; rep++ {
